@@ -428,7 +428,8 @@ def do_check(check, tier, seed):
                     audit["diverged"] += 1
                     audit_fail.append((key, i))
     if audit_fail:
-        log("DETERMINISM-AUDIT FAILED (machinery, exit 2): event-log hash differs between two executions of", audit_fail[:5])
+        log("DETERMINISM-AUDIT: event-log hash differs between two executions of", audit_fail[:5],
+            "(machinery error unless a confirmed violation below explains it)")
 
     # ---------------------------------------------------------- classify
     classes = {}   # class -> (flavour key, run, violation)
@@ -599,10 +600,18 @@ def do_check(check, tier, seed):
     if extra:
         log("further violation classes of %s seen but not minimised (limit %d per run): %s" % (
             check, MAX_CLASSES, ", ".join("%s@%s" % (t[1], t[2]) for t in extra[:40])))
+    confirmed = [1 for _, path, _ in reported if path]
     if machinery_errors or audit_fail:
-        for m in machinery_errors:
-            log("MACHINERY-ERROR: " + m)
-        exit_code = 2
+        if confirmed:
+            # Undefined behaviour that has been confirmed (gated replay file above)
+            # makes other runs depend on heap addresses: they are reported, but
+            # they do not turn a confirmed violation into a machinery error.
+            for m in machinery_errors:
+                log("NOTE (not reproducible; consistent with the undefined behaviour reported above): " + m)
+        else:
+            for m in machinery_errors:
+                log("MACHINERY-ERROR: " + m)
+            exit_code = 2
 
     # ---------------------------------------------------------- evidence
     # samples: the plans of a few runs, written out
